@@ -4,8 +4,7 @@ CONSTANTS
   NUp = 2
   NDown = 2
   MaxFaults = 3
-  AsIs_D15 = FALSE
 SPECIFICATION Spec
-INVARIANTS TypeOK PrefixDelivered OnlyOwnSegments OneAcceptPerSession OneCurrent DeadOnlyByD15
+INVARIANTS TypeOK PrefixDelivered OnlyOwnSegments OneAcceptPerSession OneCurrent NeverDead
 
 CHECK_DEADLOCK FALSE
